@@ -27,7 +27,7 @@ checks = [
   "Trusts mc/wkbref (independent 100-line serializer written from the OGC layout). Also members of up to 70000 vertices, 31..70000 members, collection chains 200 deep and call histories; other bit patterns are outside the bound.", "4/C05"),
  ("C06", MC, "E1",
   "bounded-exhaustive enumeration of structure trees x finite float patterns on the real GeoJSON codec vs an independent structural check of the JSON text",
-  "Every tree of the six types (1..3 members, first non-empty) with every rotation of 19 finite float64 patterns is encoded, the text re-read with json.Number and checked for exact RFC 7946 nesting and [x,y] literals, and decoded back bit-exactly; every single non-finite substitution must be rejected.",
+  "Every tree of the six types (1..3 members, first non-empty) with every rotation of 22 finite float64 patterns is encoded, the text re-read with json.Number and checked for exact RFC 7946 nesting and [x,y] literals, and decoded back bit-exactly; every single non-finite substitution must be rejected.",
   "Trusts encoding/json's tokenizer for re-reading the text and strconv.ParseFloat.", "4/C06"),
  ("C13", MC, "E1",
   "bounded-exhaustive enumeration of all vertex sequences over a general-position point set x tolerances on the real Simplify in isolated workers (termination is part of the property) vs exact integer simplicity and distance oracles",
@@ -39,15 +39,15 @@ checks = [
   "Trusts mc/exact predicates and float evaluation of crossing parameters on exactly representable inputs; pairs not in general position are skipped by an exact test.", "4/C14"),
  ("C15", MC, "E1",
   "bounded-exhaustive enumeration of derived geometry pairs (perturbation patterns, all member permutations, all ring rotations, every single displacement, deletion, duplication, reversal, type change) on the real Similar vs the truth table of the statement, both directions",
-  "For 29 base geometries of all eight types (slivers, duplicate members, 33..64 members, a self-touching ring), two tolerances and a far-from-origin copy with tolerance 1e-9 every derived geometry of the listed kinds is compared in both directions; the expected value follows from the statement alone.",
+  "For 37 base geometries of all eight types (slivers, duplicate members, members sharing one bounding box, flat boxes, 33..64 members, collections nested 100 deep, a self-touching ring), two tolerances and a far-from-origin copy with tolerance 1e-9 every derived geometry of the listed kinds is compared in both directions; the expected value follows from the statement alone.",
   "Catalogue members are >= 90 apart so matching is unambiguous; larger geometries are outside the bound.", "4/C15"),
  ("C16", MC, "E1",
   "bounded-exhaustive enumeration of record sequences x shapes x coordinate patterns x attribute edge values x both APIs, each written by the real Encoder and read back by the real Decoder",
-  "Every shape with 1..3 parts x 1..3 vertices of the six writable geometry kinds, with every rotation of 19 finite coordinate patterns, as single records, ordered pairs, triples and the empty file, with integer / string / float edge values, through NewEncoder/Encode/DecodeRow (tags and names in different letter case) and NewEncoderFromFields/EncodeFields/DecodeRowFields; order, count, bit-identical coordinates, closing of rings, box rectangles and attribute values are compared.",
+  "Every shape with 1..3 parts x 1..3 vertices of the six writable geometry kinds, with every rotation of 22 finite coordinate patterns, as single records, ordered pairs, triples and the empty file, with integer / string / float edge values, through NewEncoder/Encode/DecodeRow (tags and names in different letter case) and NewEncoderFromFields/EncodeFields/DecodeRowFields; order, count, bit-identical coordinates, closing of rings, box rectangles and attribute values are compared.",
   "Files are written to a private directory under /dev/shm (or TMPDIR). Null shapes and Z/M types are outside the alphabet. One known finding (blank-trimmed strings) is listed in known_findings.json.", "4/C16"),
  ("C17", MC, "E1",
   "bounded-exhaustive enumeration of structure trees x finite float patterns on the real WKT encoder vs an independent recursive-descent OGC WKT parser",
-  "Every tree of the five types (1..3 members, 1..3 vertices) with every rotation of 19 finite float64 patterns, incl. repeated vertices, is encoded and the text parsed by an independent parser of the OGC grammar to a bit-identical geometry; unsupported types must be rejected.",
+  "Every tree of the five types (1..3 members, 1..3 vertices) with every rotation of 22 finite float64 patterns, incl. repeated vertices, is encoded and the text parsed by an independent parser of the OGC grammar to a bit-identical geometry; unsupported types must be rejected.",
   "Trusts the 150-line parser in checks/c17 and strconv.ParseFloat.", "4/C17"),
  ("C07", "fault_enumeration", "E4",
   "exhaustive single-fault enumeration (every prefix, bit flip, count/type/order substitution, nesting depth; JSON value grammar) over all valid encodings of a bounded corpus, executed in isolated single-goroutine workers with exact allocation accounting",
